@@ -54,6 +54,9 @@ func checkC15(c *vk.Ctx) {
 	p.MaxSessExp = []uint32{0, 250}
 	p.TickDelta = []int64{100, 100, 200}
 	p.CleanPct = 25
+	p.DiscExpiry = []uint32{0, 0, 150, 250}
+	p.DiscExpPct = 45
+	p.HowDisc = []string{"drop", "normal", "normal", "normal"}
 	p.W = map[string]int{"connect": 8, "subscribe": 5, "publish": 8, "disconnect": 5, "tick": 5}
 	h := &histRun{Prop: "C15", Profile: p, N: c.N(400, 10000), Label: 15, Nontrivial: []string{"sessions_expired_by_tick", "sessions_ended_at_disconnect"},
 		Rules: []string{"C15/", "C14/session-present", "C03/unentitled-delivery", "C03/missing-delivery", "C09/not-resent-after-reconnect"}}
